@@ -176,6 +176,25 @@ static void root_case(Rng& rng, uint64_t)
 		count_outside("returned-point-inside-bracket");
 		return;
 	}
+	// Root finding is invariant under a rescaling of the function values: a quarter of the cases multiply f by 1e-300..1e-100 or 1e100..1e300
+	// (values near the root then lie far below 1e-150, where products of two function values underflow, or far above 1e150, where they overflow)
+	double fscale = 1.0;
+	if(rng.coin(0.25))
+	{
+		fscale = rng.coin(0.7) ? std::pow(10.0, -rng.uni(100, 300)) : std::pow(10.0, rng.uni(100, 300));
+		auto g	   = F.f;
+		double s   = fscale;
+		auto scaled = [g, s](double x) { return g(x) * s; };
+		double fl = scaled(lo), fh = scaled(hi);
+		if(std::isfinite(fl) && std::isfinite(fh) && fl != 0.0 && fh != 0.0 && std::fabs(fl) > 1e-290 && std::fabs(fh) > 1e-290 && ((fl < 0) != (fh < 0)))
+		{
+			F.f = scaled;
+			F.name += " x const";
+			F.pars.push_back(fscale);
+		}
+		else
+			fscale = 1.0;
+	}
 	double width = hi - lo;
 	double rscale = std::isnan(F.root) ? std::max(std::fabs(lo), std::fabs(hi)) : std::fabs(F.root);
 	double acc_min = std::max(1e-14 * rscale, 1e-300);
@@ -221,7 +240,7 @@ static void root_case(Rng& rng, uint64_t)
 		double fr = F.f(r);
 		double a = std::max(lo, r - acc), b = std::min(hi, r + acc);
 		double fa = F.f(a), fb = F.f(b);
-		bool ok = (fr == 0.0) || (fa * fb <= 0.0) || (fa == 0.0) || (fb == 0.0);
+		bool ok = (fr == 0.0) || ((fa < 0.0) != (fb < 0.0)) || (fa == 0.0) || (fb == 0.0);	  // signs, not products: tiny values must not underflow the oracle
 		if(!ok)
 		{
 			// several roots may lie inside the window: scan it
@@ -230,7 +249,7 @@ static void root_case(Rng& rng, uint64_t)
 			{
 				double x = a + (b - a) * i / 2000.0;
 				double v = F.f(x);
-				if(v == 0.0 || v * prev < 0.0)
+				if(v == 0.0 || ((v < 0.0) != (prev < 0.0)))
 					ok = true;
 				prev = v;
 			}
@@ -301,6 +320,10 @@ static void witness_case(Rng&, uint64_t i)
 		{"erf(x)-(1-1e-10) on [-10,10] (Inv_Erf)", [](double x) { return std::erf(x) - (1 - 1e-10); }, -10.0, 10.0, 1e-4},
 		{"x^5-1e-10 on [1e-6,1e4]", [](double x) { return std::pow(x, 5.0) - 1e-10; }, 1e-6, 1e4, 1e-8},
 		{"x^0.3-2 on [1e-3,1e6]", [](double x) { return std::pow(x, 0.3) - 2.0; }, 1e-3, 1e6, 1e-9},
+		// D24: function values far below 1e-154 / above 1e154 (products of two values underflow / overflow)
+		{"1e-200*(3x-1) on [0,1]", [](double x) { return 1e-200 * (3 * x - 1); }, 0.0, 1.0, 1e-6},
+		{"1e200*(x^3-2) on [0,5]", [](double x) { return 1e200 * (x * x * x - 2); }, 0.0, 5.0, 1e-9},
+		{"1e-170*(x^20-1e-5) on [1e-10,1e3]", [](double x) { return 1e-170 * (std::pow(x, 20.0) - 1e-5); }, 1e-10, 1e3, 1e-7},
 	};
 	if(i >= ws.size())
 		return;
@@ -310,13 +333,13 @@ static void witness_case(Rng&, uint64_t i)
 	hash_param_u(i);
 	double r  = Find_Root(w.f, w.lo, w.hi, w.acc);
 	double a = std::max(w.lo, r - w.acc), b = std::min(w.hi, r + w.acc);
-	bool ok	  = w.f(r) == 0.0 || w.f(a) * w.f(b) <= 0.0;
+	bool ok	  = w.f(r) == 0.0 || w.f(a) == 0.0 || w.f(b) == 0.0 || ((w.f(a) < 0.0) != (w.f(b) < 0.0));
 	require("sign-change-within-accuracy", ok, [&] { return J().d("returned", r).d("f(r-acc)", w.f(a)).d("f(r+acc)", w.f(b)); }, "D12-witness");
 }
 
 static void setup()
 {
-	add_generator("witness", 4, witness_case);
+	add_generator("witness", 7, witness_case);
 	add_generator("roots", ctx().count(200000, 20000000), root_case);
 	add_generator("end_zero", ctx().count(2000, 100000), end_zero_case);
 	add_generator("reject", ctx().count(300, 10000), reject_case);
